@@ -2,8 +2,10 @@ CHECK = {
     "id": "C17",
     "level": "exploration",
     "engine": "E3",
-    "technique": "bounded-exhaustive enumeration of ulp-level coordinate alphabets and of exactly degenerate corner "
-                 "families moved by single ulps, against the sign of the exact determinant in unbounded integers",
+    "technique": "bounded-exhaustive enumeration of ulp-level coordinate alphabets, of exactly degenerate corner "
+                 "families moved by single ulps, of deterministic full-mantissa near-degenerate families and of tiny "
+                 "full-mantissa coordinate grids (every 4-/5-subset, every degenerate one moved by single and multi-point "
+                 "ulp patterns), against the sign of the exact determinant in unbounded integers",
     "level_text": "All four predicate functions of ExactGeometricTests.hpp are called on every assignment of an "
                   "ulp-level alphabet ({1, 1+ulp, 1.5, 2-ulp} and sub/super-sets) to all 12 (orientation) or 15 "
                   "(in-sphere) coordinates, and on every 4/5-subset of cube corners and octahedron vertices with "
@@ -11,20 +13,38 @@ CHECK = {
                   "1e-10 filter threshold), and on generic full-mantissa families (deterministic Weyl sequences, no "
                   "RNG): fourth point on the plane / fifth point on the circumsphere of generic points (binary128, "
                   "rounded) with every coordinate moved by -4..4 ulp, so that the double evaluation inside the "
-                  "filter really rounds. Each result is compared with the sign of the exact determinant "
+                  "filter really rounds; the same with the plane parallel to each coordinate axis but not axis aligned "
+                  "(the 2x2 minors of one coordinate projection cancel individually), with a nearly collinear triple, "
+                  "and in-sphere on five nearly coplanar points (the 3x3 minors cancel). Tiny coordinate grids: G = 3 "
+                  "(thorough also 4) values per axis with a different first value and a different step on every axis, "
+                  "full-mantissa ('rounded') and exact dyadic members; EVERY 4-subset / 5-subset of the G^3 grid "
+                  "points is evaluated, and every subset that is degenerate in index space (coplanar: generic planes, "
+                  "planes parallel to one axis, axis aligned planes, points sharing one or two coordinates; "
+                  "cospherical: box corners and rectangles whose projections are cocircular; five coplanar points) is "
+                  "perturbed by every single-coordinate move of a list of k ulp and by every pattern 'each point stays "
+                  "or moves +-1 ulp along one axis' with 2..3 (thorough: ..4) moved points. Each result is compared "
+                  "with the sign of the exact determinant "
                   "computed in boost cpp_int from frexp-decoded integers in a different formulation "
                   "(untranslated homogeneous 4x4 / lifted 5x5 determinant, first-row expansion); adaptive must "
-                  "equal exact on every input; all 24/120 point permutations must flip or keep the sign. Part "
+                  "equal exact on every input; the point permutations (all 24/120 for alphabets and corner families, "
+                  "a stated subset with both parities for the grids) must flip or keep the sign. Part "
                   "'rescale': the real NewVoronoiGrid constructor is run on sides^3 x anchors^3 box alphabets and every "
                   "coordinate it hands to the predicates (rescaled generators, wall copies, tetrahedron corners) must "
                   "lie in [1,2). The property quantifies over a continuum, so it is decided on these alphabets only.",
     "level_note": "Exhaustive over the listed alphabets and families, nothing is claimed for other coordinates. "
                   "Coordinates are restricted to the normalised range [1,2) the predicates are specified for. "
                   "Quick: orientation 4^12 (contains the 3^12 sub-alphabets), in-sphere 3 x 2^15 + 3^15, families "
-                  "with k = +-1..32 and a ladder, 1.1 M generic near-coplanar and 1.0 M generic near-cospherical "
-                  "inputs; thorough (4.6 M + 4.3 M generic inputs) adds orientation {1,1.5,1.5+ulp,2-ulp} (4^12) and "
-                  "{1,1+ulp,1.5,1.5+ulp,2-ulp} (5^12), four more in-sphere 3^15 alphabets, every k = +-1..1000 and "
-                  "two more shapes.",
+                  "with k = +-1..32 and a ladder (beyond 1000 ulp the in-sphere corner families call 12 of the 120 "
+                  "permutations), 1.1 M generic near-coplanar + 0.8 M axis-parallel + 0.3 M collinear-triple and 1.0 M "
+                  "generic near-cospherical + 0.2 M five-coplanar inputs; grids: three 3x3x3 orientation grids "
+                  "(52 650 quadruples, 8 754 degenerate, 6.7 M inputs) and one 3x3x3 in-sphere grid (80 730 "
+                  "quintuples, 16 026 degenerate, 2.3 M inputs). Thorough (4.6 M + 4.3 M generic inputs and more "
+                  "structured ones) adds orientation {1,1.5,1.5+ulp,2-ulp} (4^12) and "
+                  "{1,1+ulp,1.5,1.5+ulp,2-ulp} (5^12), four more in-sphere 3^15 alphabets, every k = +-1..1000, "
+                  "two more shapes, five 3x3x3 (four of them with all 7^4 multi-point patterns) and one 4x4x4 orientation "
+                  "grid (635 376 quadruples), every k = +-1..1000 on the axis-parallel planes of one grid, three 3x3x3 "
+                  "and one 4x4x4 in-sphere grid (7 624 512 quintuples). The exact members, moves and permutation "
+                  "subsets are written to the evidence (grid_members, grid_plans).",
     "quick_deadline": 90,
     "thorough_deadline": 1200,
     "parts": [{"name": "predicates", "bin": "c17_predicates", "share": 9},
